@@ -363,8 +363,8 @@ def run_job(job):
 
 def make_jobs(tier, seed):
     rng = random.Random(60000 + seed)
-    jobs = [{'kind': 'session', 'seed': rng.randrange(1 << 30), 'i': i} for i in range(260 if tier == 'quick' else 5000)]
-    n = 600 if tier == 'quick' else 20000
+    jobs = [{'kind': 'session', 'seed': rng.randrange(1 << 30), 'i': i} for i in range(260 if tier == 'quick' else 14000)]
+    n = 600 if tier == 'quick' else 80000
     subs = [{'seed': rng.randrange(1 << 30), 'i': i, 'pattern': ['plain', 'oversize', 'flip', 'increase'][i % 4]}
             for i in range(n)]
     jobs += [{'kind': 'batch', 'batch': subs[i:i + 25]} for i in range(0, n, 25)]
